@@ -35,6 +35,11 @@ def residues(w):
         f = I.call(fm, [dict(comp)], {})
         out[code] = I.instantiate(Mol, [code, f], {"cell_volume": P(f"V{code}"), "charge": sp.Symbol(f"z{code}", real=True)},
                                   name=f"res{code}", open_attrs=())
+    # the DNA and the RNA table name their residues alike ('adenosine' is code A in both) although the molecules differ
+    for key, like in (("dnaA", "C"), ("rnaA", "B")):
+        f = I.call(fm, [dict(I.getattr(I.getattr(out[like], "labile_formula"), "atoms"))], {})
+        out[key] = I.instantiate(Mol, ["adenosine", f], {"cell_volume": P(f"V{like}"), "charge": sp.Symbol(f"z{like}", real=True)},
+                                 name=f"res{key}", open_attrs=())
     return out
 
 
@@ -49,7 +54,8 @@ def run(ctx):
         return tuple(sp.Symbol(f"sld{n_sld[0]}_{k}", real=True) for k in ("re", "im", "inc"))
     I.stubs["nsf.neutron_sld"] = opaque_sld
     res = residues(w)
-    I.symconst["fasta.CODE_TABLES"] = {"aa": dict(res), "dna": {"A": res["C"]}, "rna": {"A": res["B"]}}
+    dnaA, rnaA = res.pop("dnaA"), res.pop("rnaA")
+    I.symconst["fasta.CODE_TABLES"] = {"aa": dict(res), "dna": {"A": dnaA}, "rna": {"A": rnaA}}
     I.module_cache.pop(("fasta", "CODE_TABLES"), None)
     Seq = I.get_class("fasta.Sequence")
     P = lambda n: sp.Symbol(n, positive=True)
@@ -157,7 +163,7 @@ def run(ctx):
     fm = I.global_name("formulas", "formula")
     s_fm = fsite(ctx, "formulas.formula")
     from .C16 import UnexpectedParse
-    for pre, text, table in (("aa", "ABCA", res), ("dna", "AA", {"A": res["C"]}), ("rna", "AA", {"A": res["B"]})):
+    for pre, text, table in (("aa", "ABCA", res), ("dna", "AA", {"A": dnaA}), ("rna", "AA", {"A": rnaA})):
         try:
             got = I.call(fm, [f"{pre}:{text}"], {})
         except UnexpectedParse as exc:
@@ -173,6 +179,12 @@ def run(ctx):
     got = I.call(fm, ["rna:AA"], {})
     dict_eq(ctx, "R3", "formula('rna:AA') after formula('dna:AA') uses the RNA table", I.getattr(got, "atoms"),
             I.getattr(I.getattr(seq("AA", "rna"), "labile_formula"), "atoms"), s_fm)
+    # ... and each is the sum of its own table's residues, in whichever order the two types are used (the DNA and RNA
+    # tables name their residues alike, so nothing may be remembered under the residue's name)
+    for typ_, mol_ in (("dna", dnaA), ("rna", rnaA), ("dna", dnaA)):
+        own = {a_: 2 * n_ for a_, n_ in I.getattr(I.getattr(mol_, "labile_formula"), "atoms").items()}
+        dict_eq(ctx, "R3", f"Sequence('AA', type='{typ_}') built after a sequence of the other nucleic-acid type = twice its own residue",
+                I.getattr(I.getattr(seq("AA", typ_), "labile_formula"), "atoms"), own, site)
     # every call returns its own formula: formulas are mutable (+=), so a shared object would leak changes
     first = I.call(fm, ["aa:ABCA"], {})
     before = dict(I.getattr(first, "atoms"))
